@@ -10,7 +10,7 @@ R4 marker last: nothing is written after the marker in the marker-creating funct
 """
 import ast
 
-from ..engine.program import AnalysisError, dotted, src, walk_no_nested, call_name, enclosing_function
+from ..engine.program import AnalysisError, dotted, src, walk_no_nested, call_name, enclosing_function, enclosing_stmt
 from ..engine import flow
 
 DSP = "src/dataset_processor.py"
@@ -657,10 +657,112 @@ def r8(prog, ctx, markers):
     ctx.extra["marker_suffixes"] = sorted(sufs)
 
 
+# what collect_reads_in_parallel hands back per chromosome, and the per-chromosome file (by the literal tail of its name) that carries it
+# across a kill: confirmed by reading the function; position in the returned tuple -> (what it is, file-name tail)
+RESTORE_TABLE = [(0, "read groups seen on the chromosome", "_groups"),
+                 (1, "alignment statistics of the chromosome", "_bamstat"),
+                 (2, "read ids / assignments handed to the multimapper resolver", "")]
+
+
+def _file_locals(f):
+    """file-name locals of a function: name -> literal tail of the '{}_{}<tail>'.format(...) expression defining it"""
+    out = {}
+    for st in f.body:
+        if isinstance(st, ast.Assign) and len(st.targets) == 1 and isinstance(st.targets[0], ast.Name) and isinstance(st.value, ast.Call) \
+                and isinstance(st.value.func, ast.Attribute) and st.value.func.attr == "format" and isinstance(st.value.func.value, ast.Constant) \
+                and isinstance(st.value.func.value.value, str) and st.value.func.value.value.startswith("{}_{}"):
+            out[st.targets[0].id] = st.value.func.value.value[len("{}_{}"):]
+    return out
+
+
+def r9(prog, ctx, tag="R9", positions=(0, 1, 2)):
+    """What a chromosome's collection stage returns is, on the --resume reuse path, rebuilt from the very files the normal path wrote it to."""
+    from ..engine import taint
+    f = prog.func_inlined(DSP, "collect_reads_in_parallel")         # helpers of the module expanded in place
+    files = _file_locals(f)
+    by_tail = {}
+    for name, tail in files.items():
+        by_tail.setdefault(tail, name)
+    for _pos, _what, tail in RESTORE_TABLE:
+        if tail not in by_tail:
+            raise AnalysisError("collect_reads_in_parallel: no file-name local '{}_{}%s'.format(...) found" % tail)
+    sources = {name: {"file:" + tail} for name, tail in files.items()}
+    resume_rets, normal_rets = {}, {}
+    for pth in flow.paths(f):
+        if pth.exit != "return" or pth.exit_node is None or not isinstance(pth.exit_node.value, ast.Tuple) or len(pth.exit_node.value.elts) != 3:
+            continue
+        resumed = any(pol and "resume" in src(t) for t, pol in pth.conds())
+        env = taint.run(pth, sources)
+        labs = [taint.influence(e, env) for e in pth.exit_node.value.elts]
+        tgt = resume_rets if resumed and any("os.path.exists" in src(t) and pol for t, pol in pth.conds()) and \
+            isinstance(pth.exit_node._parent, ast.If) else normal_rets
+        cur = tgt.setdefault(id(pth.exit_node), (pth.exit_node, [set(), set(), set()], []))
+        for i in range(3):
+            cur[1][i] |= labs[i]
+        cur[2].append((pth, env))
+    if not resume_rets or not normal_rets:
+        raise AnalysisError("collect_reads_in_parallel: expected a --resume reuse return and a normal return of a 3-tuple")
+    n = 0
+    for node, labs, _p in resume_rets.values():
+        for pos, what, tail in RESTORE_TABLE:
+            if pos not in positions:
+                continue
+            n += 1
+            if "file:" + tail in labs[pos]:
+                ctx.ok(tag, "%s:%d" % (DSP, node.lineno), "reuse path: element %d (%s) is rebuilt from %s" % (pos, what, by_tail[tail]))
+            else:
+                ctx.fail(tag, node, f._qualname, "%s  # element %d" % (src(node)[:70], pos),
+                         "on the --resume path that reuses an already collected chromosome, element %d of the result (%s = %s) does not depend "
+                         "on what is read from %s ('{}_{}%s'), the file the normal path saved it to: the resumed run continues with %s instead of "
+                         "the values of the interrupted run" % (pos, what, src(node.value.elts[pos]), by_tail[tail], tail,
+                                                               "an empty / freshly initialised value"))
+    # the normal path persists each element into that file
+    for node, labs, pes in normal_rets.values():
+        for pos, what, tail in RESTORE_TABLE:
+            if pos not in positions:
+                continue
+            n += 1
+            elem = node.value.elts[pos]
+            fname = by_tail[tail]
+            persisted = False
+            for pth, _env in pes:
+                env = taint.run(pth, dict(sources, **{src(elem): {"elem"}}))
+                shared = None
+                for st in pth.stmts():
+                    for c in (x for x in walk_no_nested(st) if isinstance(x, ast.Call) and isinstance(x.func, ast.Attribute)):
+                        recv_l = taint.influence(c.func.value, env)
+                        arg_l = set()
+                        for a in c.args:
+                            arg_l |= taint.influence(a, env)
+                        both = recv_l | arg_l
+                        if c.func.attr in ("write", "dump", "dump_to", "save") and "file:" + tail in both and \
+                                ("elem" in both or src(c.func.value) == src(elem)):
+                            persisted = True
+                        if "file:" + tail in recv_l and c.func.attr.startswith("add_") and c.args:
+                            shared = {x for a in c.args for x in taint.names_in(a)}
+                            # the same loop body feeds the returned element from the same variable
+                            blk = enclosing_stmt(c)._parent
+                            for c2 in (x for s2 in getattr(blk, "body", []) for x in walk_no_nested(s2) if isinstance(x, ast.Call)):
+                                if isinstance(c2.func, ast.Attribute) and src(c2.func.value) == src(elem) and c2.func.attr in taint.MUTATORS \
+                                        and shared & {x for a in c2.args for x in taint.names_in(a)}:
+                                    persisted = True
+            if persisted:
+                ctx.ok(tag, "%s:%d" % (DSP, node.lineno), "normal path: element %d (%s) is written to %s" % (pos, what, fname))
+            else:
+                ctx.fail(tag, node, f._qualname, "%s  # element %d never saved" % (src(node)[:70], pos),
+                         "the normal path returns %s (%s) but never writes it to %s ('{}_{}%s'): a resumed run that reuses this chromosome "
+                         "cannot rebuild it" % (src(elem), what, fname, tail))
+    ctx.floor(tag, "returned elements x {reuse path, normal path}", n, 2 * len(positions))
+
+
 def run(prog, ctx):
     ctx.rule("R8", "marker file-name suffixes are derived from the marker-creating sites; in isoquant.py the single save_params(args) call "
                    "is preceded in its block, on the path of a non-resumed run, by a call of a function that os.remove()s files whose "
                    "names end with every one of those suffixes (invalidate stale progress before publishing a new run identity)")
+    ctx.rule("R9", "save/restore agreement of the per-chromosome collection stage (path-wise influence propagation): each element of the tuple "
+                   "collect_reads_in_parallel returns is written by the normal path to its per-chromosome file, and on the --resume reuse "
+                   "path the returned element depends on what is read from that same file")
+    r9(prog, ctx)
     ctx.rule("R6", "in a marker-creating function no add/merge/update of an object follows its dump() before the marker")
     ctx.rule("R7", "every open(self.<file>, 'a') of a class is matched by an open(self.<file>, 'w') in its constructor chain")
     ctx.rule("R5", "for every DatasetProcessor method with a --resume skip return: each self.* location it fills after that point and "
